@@ -34,6 +34,20 @@ func simPick(chosen uint32, candidates []uint32) uint32 {
 	return chosen
 }
 
+// SimDefer, when set, receives the wake-up of a goroutine waiting on a join /
+// leave promise instead of it being performed inline; the simulator performs it
+// when its scheduler is parked, so that woken goroutines never run concurrently
+// with the operation that answered the promise.
+var SimDefer func(wake func())
+
+func simDeferRespond(p *joinPromise, accepted bool, acceptedRound int, ps []*peers.Peer) bool {
+	if SimDefer == nil {
+		return false
+	}
+	SimDefer(func() { p.respCh <- joinPromiseResponse{accepted, acceptedRound, ps} })
+	return true
+}
+
 func simYield(n *Node, site string) {
 	if SimYield != nil {
 		SimYield(n, site)
